@@ -43,7 +43,13 @@ def loc_of(cfg, tmp):
     return 'sqlite:///%s' % os.path.join(tmp, 'store', 'arch.db')
 
 
+class Dyn(object):
+    """stand-in (in the harness process) for an instance of a class that the WRITER process defines in its `__main__`"""
+    def __init__(self, n): self.n = n; self.tag = 'dyn'
+
+
 def vdesc(v):
+    if isinstance(v, Dyn): return {'__dyn__': v.n}
     if callable(v): return {'__fn__': 'sq'}
     if isinstance(v, (list, dict, set)): return {'__mut__': pickle.dumps(v).hex()}
     return {'__val__': pickle.dumps(v).hex()}
@@ -51,7 +57,7 @@ def vdesc(v):
 
 VALUES = {
     'pickle': [0, 1, -5, 2 ** 70, 'v', 'w w', '', 1.5, -0.0, float('inf'), None, True, (1, 2), [1, [2, 'x']], {'a': (1,)}, b'by', {1: 2}, ((),),
-               [[], {}], {'k': [1.5, None]}, persist_child.sq, {3, 4}],
+               [[], {}], {'k': [1.5, None]}, persist_child.sq, {3, 4}, Dyn(7), Dyn(8)],
     'json': [0, 1, -5, 2 ** 70, 'v', 'w w', '', 1.5, None, True, [1, 2], [1, ['x', None]], {'a': 1, 'b': [2]}, {}, float('inf')],
     'source': [0, 1, -5, 2 ** 70, 'v', 'w w', '', 1.5, None, True, (1, 2), [1, [2]], {'a': 1}, 'it''s'],
     'sql': [0, 1, -5, 2 ** 40, 'v', 'w w', '', 1.5, -0.25, None, True, b'by'],
